@@ -92,7 +92,24 @@ def generate(seed, tier, index):
         m = R.gen_matcher(rng, voc, p_const=0.1)
         cfg['filter'] = R.render(m)
         cfg['filter_model'] = m
-    cmds = S.gen_commands(rng, voc, rng.randint(1, 8), {'breakpoint': 8, 'filter': 2, 'connection': 3, 'list': 2, 'other': 2})
+    orphan_flavour = rng.random() < 0.12
+    if orphan_flavour:
+        # messages on objects the tool cannot resolve (gdb attached after they were created): with `*` as the breakpoint
+        # every message must halt, on the selected connection or on all - whatever the object table knows
+        m = {'kind': 'star'}
+        cfg['break'] = '*'
+        cfg['break_model'] = m
+        cfg.pop('filter', None)
+        cfg.pop('filter_model', None)
+        cfg['orphans'] = True
+        t2 = []
+        for it in traffic:
+            t2.append(it)
+            if it[0] == 'act' and rng.random() < 0.25:
+                t2.append(['act', it[1], 'orphan', rng.randrange(1 << 30), rng.randrange(1 << 30), rng.randrange(1 << 30), 0])
+        traffic = t2
+    cmds = S.gen_commands(rng, voc, rng.randint(1, 8), {'connection': 1} if orphan_flavour else
+                          {'breakpoint': 8, 'filter': 2, 'connection': 3, 'list': 2, 'other': 2})
     out = []
     for c in cmds:
         out.append(['cmd', gdb_spelling(rng, c[1], c[2]), c[2]])
